@@ -1,12 +1,38 @@
 import IrVerif.Drive.Util
+import IrVerif.Drive.Clone
+import IrVerif.Drive.Kernel
+import IrVerif.Drive.Names
 import IrVerif.Drive.Pack
+import IrVerif.Drive.PassInfra
+import IrVerif.Drive.Writer
+import IrVerif.Drive.Sort
+import IrVerif.Drive.Device
+import IrVerif.Drive.LinkedSet
+import IrVerif.Drive.Extract
+import IrVerif.Drive.AtomicSave
+import IrVerif.Drive.Path
+import IrVerif.Drive.Layout
+import IrVerif.Drive.Journal
 /-! Line protocol: one JSON request per line on stdin (`{"m": "<model>.<fn>", ...}`), one JSON
 answer per line on stdout (`{"err": ...}` for malformed requests).  Imports models only — never a
 proof file — so that nothing it links touches Mathlib. -/
 open Lean IrVerif.Drive
 
 def handlers : List Handler := [
-  IrVerif.Drive.Pack.handle
+  IrVerif.Drive.Clone.handle,
+  IrVerif.Drive.Kernel.handle,
+  IrVerif.Drive.Names.handle,
+  IrVerif.Drive.Pack.handle,
+  IrVerif.Drive.PassInfra.handle,
+  IrVerif.Drive.Writer.handle,
+  IrVerif.Drive.Sort.handle,
+  IrVerif.Drive.Device.handle,
+  IrVerif.Drive.LinkedSet.handle,
+  IrVerif.Drive.Extract.handle,
+  IrVerif.Drive.AtomicSave.handle,
+  IrVerif.Drive.Path.handle,
+  IrVerif.Drive.Layout.handle,
+  IrVerif.Drive.Journal.handle
 ]
 
 def dispatch (j : Json) : Except String Json := do
